@@ -86,3 +86,12 @@ Theorem C04_mpf_div : forall p z prec r, fincanon p -> cfin z -> (0 < cabs2 z)%R
     (Rabs (cre q - rv p * cre z / cabs2 z) <= 3 * bpow radix2 (- prec + 1) * (Rabs (rv p) * sqrt (/ cabs2 z)))%R /\
     (Rabs (cim q - rv p * (- cim z) / cabs2 z) <= 3 * bpow radix2 (- prec + 1) * (Rabs (rv p) * sqrt (/ cabs2 z)))%R.
 Proof. exact mpc_mpf_div_spec. Qed.
+
+(* the complex square root on the real axis: correctly rounded sqrt(a) for a > 0, i*sqrt(-a) for a < 0 *)
+From MP Require Import Proofs.CplxSqrtReal.
+Theorem C04_sqrt_real_pos : forall a prec r, regular a -> msign a = 0 -> 0 < prec ->
+  exists y, mpc_sqrt (a, fzero) prec r = Ok (y, fzero) /\ rv y = RND r prec (sqrt (rv a)).
+Proof. exact mpc_sqrt_real_pos. Qed.
+Theorem C04_sqrt_real_neg : forall a prec r, regular a -> msign a = 1 -> 0 < prec ->
+  exists y, mpc_sqrt (a, fzero) prec r = Ok (fzero, y) /\ rv y = RND r prec (sqrt (- rv a)).
+Proof. exact mpc_sqrt_real_neg. Qed.
